@@ -42,6 +42,7 @@ impl Rep {
 pub fn run(obligation: &str) -> i32 {
     let mut rep = Rep::new();
     std::panic::set_hook(Box::new(|_| {}));   // panics of the code under contract are reported as outcomes, not printed
+    if ["C05.generate_", "C03.generate_"].iter().any(|p| obligation.starts_with(p)) { gen_blocks(&mut rep); return rep.finish("GEN_blocks"); }
     if ["C03.format_tag", "C06.width_to_tokens", "C04.format_range_annotations", "lemma.GEN_emission"].iter().any(|p| obligation.starts_with(p)) { gen_emission(&mut rep); return rep.finish("GEN_emission"); }
     if obligation.starts_with("C03.") { c03_apply_tagenv(&mut rep); return rep.finish("C03_apply_tagenv"); }
     if ["C02.link_components_of", "C05.link_components_of", "C02.has_components_of", "C05.lemma.", "C02.lemma."].iter().any(|p| obligation.starts_with(p)) { c02_components_of(&mut rep); return rep.finish("C02_components_of"); }
@@ -121,6 +122,58 @@ fn gen_emission(rep: &mut Rep) {
             };
             rep.check("C04.format_range_annotations.prefix_both_ends_and_extensible_exactly_as_folded", nows(text) == want, d);
         }
+    } }
+}
+
+/// Native replay of unit GEN_blocks: the statement blocks of generate_enumerated / generate_choice / generate_sequence_or_set are
+/// executed as part of the real functions (Backend::generate_module on one type assignment); the item `T` of the bindings is inspected.
+fn gen_blocks(rep: &mut Rep) {
+    use rasn_compiler::verif_hooks::hook_generate_type;
+    let nows = |s: &str| s.chars().filter(|c| !c.is_whitespace()).collect::<String>();
+    // the attributes in front of `pub struct T` / `pub enum T`
+    let head = |text: &str| -> String { let t = nows(text); let cut = t.find("pubstructT{").or(t.find("pubenumT{")).or(t.find("pubstructT(")).unwrap_or(t.len()); t[..cut].to_string() };
+    let boolean = || ASN1Type::Boolean(Boolean { constraints: vec![] });
+    for env in [TaggingEnvironment::Automatic, TaggingEnvironment::Implicit, TaggingEnvironment::Explicit] { for implied in [false, true] {
+        for n in 0..=3usize { for marker in std::iter::once(None).chain((0..=n).map(Some)) { for tagged_mask in 0..(1usize << n) {
+            // tags as they look after apply_tagging_environment in a module with default `env`
+            let tag = |i: usize| if tagged_mask >> i & 1 == 1 { Some(AsnTag { environment: env, tag_class: TagClass::ContextSpecific, id: 10 + i as u64 }) } else { None };
+            for kind in 0..4usize {
+                if kind == 3 && tagged_mask != 0 { continue; }
+                if (kind == 2 || kind == 3) && n == 0 { continue; }
+                let ty = match kind {
+                    0 | 1 => { let s = SequenceOrSet { components_of: vec![], extensible: marker, constraints: vec![], members: (0..n).map(|i| SequenceOrSetMember { name: format!("f{i}"), tag: tag(i), ty: boolean(), optionality: Optionality::Required, is_recursive: false, constraints: vec![] }).collect() };
+                               if kind == 0 { ASN1Type::Sequence(s) } else { ASN1Type::Set(s) } }
+                    2 => ASN1Type::Choice(Choice { extensible: marker, constraints: vec![], options: (0..n).map(|i| ChoiceOption { name: format!("f{i}"), tag: tag(i), ty: boolean(), constraints: vec![], is_recursive: false }).collect() }),
+                    _ => ASN1Type::Enumerated(Enumerated { members: (0..n).map(|i| Enumeral { name: format!("e{i}"), description: None, index: i as i128 }).collect(), extensible: marker, constraints: vec![] }),
+                };
+                for top in [None, Some((TagClass::Application, 3u64)), Some((TagClass::Private, u64::MAX))] {
+                    // a keyword-less or EXPLICIT tag on the assignment, as resolved in this module (IMPLICIT in front of a CHOICE is not valid ASN.1)
+                    let top_tag = top.map(|(c, id)| AsnTag { environment: if kind == 2 && env != TaggingEnvironment::Explicit && tagged_mask & 1 == 1 { TaggingEnvironment::Explicit } else { env }, tag_class: c, id });
+                    let got = hook_generate_type(env, implied, &ty, top_tag.clone());
+                    let kname = ["SEQUENCE", "SET", "CHOICE", "ENUMERATED"][kind];
+                    let d = || format!("module_default={env:?} extensibility_implied={implied} kind={kname} items={n} marker={marker:?} tagged_items_mask={tagged_mask:b} assignment_tag={top_tag:?} -> {}", match &got { Ok(t) => head(t), Err(e) => format!("ERR {e}") });
+                    let Ok(text) = &got else { rep.check("GEN_blocks.type_is_generated", false, d); continue; };
+                    let h = head(text);
+                    let want_ne = marker.is_some() || implied;
+                    let ne = ["C05.generate_sequence_or_set_non_exhaustive.exactly_with_a_marker_or_extensibility_implied", "C05.generate_sequence_or_set_non_exhaustive.exactly_with_a_marker_or_extensibility_implied",
+                              "C05.generate_choice_non_exhaustive.exactly_with_a_marker_or_extensibility_implied", "C05.generate_enumerated_non_exhaustive.exactly_with_a_marker_or_extensibility_implied"][kind];
+                    rep.check(ne, h.contains("#[non_exhaustive]") == want_ne, d);
+                    if kind <= 2 {
+                        let want_auto = env == TaggingEnvironment::Automatic && tagged_mask == 0;
+                        let (yes, no) = if kind == 2 { ("C03.generate_choice_automatic_tags.automatic_module_and_no_tagged_alternative_gives_automatic_tags", "C03.generate_choice_automatic_tags.otherwise_no_automatic_tags") }
+                                        else { ("C03.generate_sequence_or_set_automatic_tags.automatic_module_and_no_tagged_component_gives_automatic_tags", "C03.generate_sequence_or_set_automatic_tags.otherwise_no_automatic_tags") };
+                        rep.check(if want_auto { yes } else { no }, h.contains("automatic_tags") == want_auto, d);
+                    }
+                    if kind == 2 {
+                        match &top_tag {
+                            None => rep.check("C03.generate_choice_tag.untagged_choice_gets_no_tag_annotation", !h.contains("tag("), d),
+                            Some(t) => { let w = if t.tag_class == TagClass::Application { "application" } else { "private" };
+                                         rep.check("C03.generate_choice_tag.tagged_choice_is_tagged_explicitly_with_its_class_and_number", h.contains(&format!("tag(explicit({w},{}))", t.id)), d); }
+                        }
+                    }
+                }
+            }
+        } } }
     } }
 }
 
